@@ -24,7 +24,7 @@ def sh(cmd, **kw):
 def main():
     rows = []
     cands = []
-    for rnd, base in ((1, "_candidates"), (2, "_candidates2")):
+    for rnd, base in ((1, "_candidates"), (2, "_candidates2"), (3, "_candidates3")):
         for d in sorted(glob.glob(os.path.join(SEEDED, base, "C*", "m*"))):
             cands.append((rnd, d))
     only = sys.argv[1:] if len(sys.argv) > 1 else None
@@ -94,22 +94,24 @@ def main():
         rows.append(meta_out)
         fc = res.get("full_check", {})
         print(sid, "confirmed" if res["confirmed"] else "UNCONFIRMED", "check-exit", fc.get("exit"), "verus-only-exit", res.get("verus_only", {}).get("exit"), flush=True)
-    # README
-    if not only:
-        lines = ["# Seeded changes", "",
-                 "Each directory holds `patch.diff` (the change), `demo.diff` (the agent's demonstration) and `meta.json` (property, what it needs to manifest, what was run, results).",
-                 "Detection: `check` = exit code of `./check <prop> --quick` with the change applied to /repo (1 = VIOLATION reported); `Verus alone` = exit code of the same check with `--no-rac` (1 = a proof obligation failed with a definite verdict, 2 = undecided: Verus could not take the changed code / lost anchor).", "",
-                 "| id | property | change | needs | confirmed | check | caught by | Verus alone |", "|---|---|---|---|---|---|---|---|"]
-        for r in rows:
-            d = r["detection"]
-            fc = d.get("full_check", {})
-            by = []
-            if fc.get("failed_obligations"):
-                by.append("Verus: " + re.sub(r"^FAILED obligation ", "", fc["failed_obligations"][0])[:90])
-            if fc.get("rac_contracts"):
-                by.append("rac: " + fc["rac_contracts"][0][:90])
-            lines.append(f"| {r['id']} | {r['property']} | {(r.get('title') or '')[:80]} | {(r.get('needs_to_manifest') or '')[:110]} | {'yes' if d['confirmed'] else 'no'} | {fc.get('exit')} | {'; '.join(by) or '-'} | {d.get('verus_only', {}).get('exit')} |")
-        open(os.path.join(SEEDED, "README.md"), "w").write("\n".join(lines) + "\n")
+    # README: from every seeded/<id>/meta.json on disk, so that a partial re-run keeps the table complete
+    rows = []
+    for mp in sorted(glob.glob(os.path.join(SEEDED, "C*-r*-m*", "meta.json"))):
+        rows.append(json.load(open(mp)))
+    lines = ["# Seeded changes", "",
+             "Each directory holds `patch.diff` (the change), `demo.diff` (the agent's demonstration) and `meta.json` (property, what it needs to manifest, what was run, results).",
+             "Detection: `check` = exit code of `./check <prop> --quick` with the change applied to /repo (1 = VIOLATION reported); `Verus alone` = exit code of the same check with `--no-rac` (1 = a proof obligation failed with a definite verdict, 2 = undecided: Verus could not take the changed code / lost anchor, 0 = the change is outside the functions under contract or inside a contract leaf).", "",
+             "| id | property | change | needs | confirmed | check | caught by | Verus alone |", "|---|---|---|---|---|---|---|---|"]
+    for r in rows:
+        d = r["detection"]
+        fc = d.get("full_check", {})
+        by = []
+        if fc.get("failed_obligations"):
+            by.append("Verus: " + re.sub(r"^FAILED obligation ", "", fc["failed_obligations"][0])[:90])
+        if fc.get("rac_contracts"):
+            by.append("rac: " + fc["rac_contracts"][0][:90])
+        lines.append(f"| {r['id']} | {r['property']} | {(r.get('title') or '')[:80]} | {(r.get('needs_to_manifest') or '')[:110]} | {'yes' if d['confirmed'] else 'no'} | {fc.get('exit')} | {'; '.join(by) or '-'} | {d.get('verus_only', {}).get('exit')} |")
+    open(os.path.join(SEEDED, "README.md"), "w").write("\n".join(lines) + "\n")
 
 
 if __name__ == "__main__":
